@@ -129,14 +129,20 @@ def combined_obs(case):
 
     comb = CombinedRegistry()
     built = []
+    expected_keys = []          # what each member holds by itself: combining never changes a member
     for j, m in enumerate(case["members"]):
         if isinstance(m, dict) and "again" in m:
             # the very same member object, which gained items since it was first added (a directory that received files)
             reg = built[m["again"]]
             for k, tag in m["extra"]:
                 reg._d[k] = Item(id=k, name=tag, entity=None, resistance="Kanamycin")
+            for i, r in enumerate(built):
+                if r is reg:
+                    expected_keys[i] = list(reg)
+            expected_keys.append(list(reg))
         else:
             reg = build(m)
+            expected_keys.append(list(reg))
         built.append(reg)
         if j % 2:
             comb << reg
@@ -146,7 +152,10 @@ def combined_obs(case):
     probes = {}
     for k in case["probes"]:
         probes[k] = _lookup(comb, k)
-    return {"iter": keys, "len": len(comb), "probes": probes, "contains": {k: (k in comb) for k in case["probes"]}}
+    changed = [j for j, (r, ks) in enumerate(zip(built, expected_keys))
+               if list(r) != ks or len(r) != len(ks) or any((k in r) != (k in ks) for k in case["probes"])]
+    return {"iter": keys, "len": len(comb), "probes": probes, "contains": {k: (k in comb) for k in case["probes"]},
+            "members_changed": changed}
 
 
 def fs_obs(case):
@@ -359,6 +368,9 @@ def run(ctx):
             v = ("C20:combined:keys", "keys %s, union of the members %s" % (o["iter"], union))
         elif o["len"] != len(union):
             v = ("C20:combined:len", "len %d for %d keys" % (o["len"], len(union)))
+        elif o.get("members_changed"):
+            v = ("C20:combined:member-changed", "after the combination, member(s) %s no longer hold exactly their own keys "
+                                                "(a later combination of the same object would see foreign keys)" % o["members_changed"])
         else:
             for k, p in o["probes"].items():
                 if (k in first) != bool(p.get("found")) or o["contains"][k] != (k in first):
